@@ -23,7 +23,7 @@ META = {
     "assumptions": ["the metric object is used by one thread at a time"],
     "not_decided": "behaviour of the river metric objects themselves (library code outside /repo)",
 }
-MIN_INSTANCES = {"PAIR": 3, "SIGN": 2, "AGREE": 4}
+MIN_INSTANCES = {"PAIR": 3, "SIGN": 2, "AGREE": 4, "COPY": 1}
 CLS = "RiverMetricToLossFunction"
 VALIDATOR = "ixai.utils.validators.loss._get_loss_function_from_river_metric"
 
@@ -82,7 +82,68 @@ def _show_args(ev):
     return ", ".join([ir.show_nl(a) for a in ev.args] + [f"{k}={ir.show_nl(v)}" for k, v in ev.kwargs])
 
 
+def _user_metric(run, prog):
+    """The metric object the user hands to an explainer is only ever used through the loss wrapper: a class that keeps
+    the raw object in a field of its own and calls a state-changing method on it changes what every later loss
+    evaluation (which updates and reverts the same object) reads."""
+    import ast
+    from .common import explainer_classes
+    from .copylib import READ_ONLY
+    n = 0
+    for cls in explainer_classes(prog):
+        try:
+            init = prog.summarise(cls, "__init__")
+        except ir.Unsupported:
+            continue
+        _, ifn = prog.find_method(cls, "__init__")
+        lossp = [a.arg for a in ifn.args.args + ifn.args.kwonlyargs if "loss" in a.arg]
+        if not lossp:
+            continue
+        n += 1
+
+        def raw(t):
+            if not isinstance(t, tuple) or not t:
+                return False
+            if t[0] == "res" and isinstance(t[2], str) and t[2].endswith("validate_loss_function"):
+                return False                        # wrapped: the wrapper brackets every use
+            if t[0] == "param" and t[1] in lossp:
+                return True
+            return any(raw(x) for x in t if isinstance(x, tuple))
+        holders = [f for f, v in init.fields.items() if raw(v)]
+        bad = None
+        for f in holders:
+            for k in prog.mro(cls):
+                for mname, fn in k.methods.items():
+                    for node in ast.walk(fn):
+                        if isinstance(node, ast.Call) and isinstance(node.func, ast.Attribute) and \
+                                isinstance(node.func.value, ast.Attribute) and node.func.value.attr == f and \
+                                isinstance(node.func.value.value, ast.Name) and node.func.value.value.id == "self" and \
+                                node.func.attr not in READ_ONLY and node.func.attr not in ("get", "bigger_is_better", "clone"):
+                            bad = bad or (k, fn, node, f)
+        if bad:
+            k, fn, node, f = bad
+            run.fail("PAIR", f"{cls.name}.user-metric", f"{k.module.path}:{node.lineno}", f"{k.name}.{fn.name}",
+                     f"self.{f}.{node.func.attr}(...) on the user's metric object",
+                     f"{cls.name} keeps the metric object the user handed in (self.{f}) and calls `{node.func.attr}` on it: the "
+                     f"metric's running state changes for good, so every later loss value (computed by update / get / revert on "
+                     f"the same object) includes these observations, and so does any other explainer sharing the metric")
+        else:
+            run.ok("PAIR", f"{cls.name}.user-metric", "the user's metric object is only used through the loss wrapper")
+    return n
+
+
 def check(run):
+    _check_own(run)
+    _user_metric(run, run.prog)
+    # COPY: a copied loss keeps its metric, its input mode and its sign
+    from .copylib import copy_protocol
+    prog = run.prog
+    for cls in [prog.find_class(CLS)]:
+        if cls is not None:
+            copy_protocol(run, prog, cls)
+
+
+def _check_own(run):
     prog = run.prog
     cls = prog.find_class(CLS)
     run.need(cls is not None, f"anchor class {CLS} vanished")
